@@ -81,7 +81,8 @@ def build(pid, run, build_dir, repo, verif, outdir, env):
         for fn in os.listdir(scratch):
             if fn.endswith(".go"):
                 repl[os.path.join(repo, reldir, fn)] = os.path.join(scratch, fn)
-    ov = os.path.join(outdir, "overlay.fp.json")
+    os.makedirs(os.path.join(outdir, "fp"), exist_ok=True)
+    ov = os.path.join(outdir, "fp", "overlay.fp.json")
     with open(ov, "w") as f:
         json.dump({"Replace": repl}, f, indent=1)
     if run.get("failpoint_terms") and armed:
